@@ -40,38 +40,41 @@ class EngineModel:
         if len(ps) != 2:
             raise AnalysisError('unrecognised construct: _process_operation signature %s' % ps)
         opvar, payvar = ps
+        # CFG based (independent of how the chain is spelled: elif chain, negated tests, operands swapped): every return of
+        # self.<handler>(payload) is reached under exactly one positive test "operation == Operation.M" and otherwise only negative ones
+        from .cfg import CFG
+        from .guards import dominating_edges, cmp_parts
+        g = CFG(fn)
         out = {}
-        node = None
-        for s in fn.body:
-            if isinstance(s, ast.If):
-                node = s
-                break
-        if node is None:
-            raise AnalysisError('unrecognised construct: _process_operation has no if-chain')
-        while node is not None:
-            t = node.test
-            if not (isinstance(t, ast.Compare) and len(t.ops) == 1 and isinstance(t.ops[0], ast.Eq)
-                    and isinstance(t.left, ast.Name) and t.left.id == opvar):
-                raise AnalysisError('unrecognised construct: dispatch test %s' % U(t))
-            em = enum_member(t.comparators[0], 'Operation')
-            if em is None:
-                raise AnalysisError('unrecognised construct: dispatch comparand %s' % U(t.comparators[0]))
-            if not (len(node.body) == 1 and isinstance(node.body[0], ast.Return)
-                    and isinstance(node.body[0].value, ast.Call)):
-                raise AnalysisError('unrecognised construct: dispatch arm for %s' % em[1])
-            call = node.body[0].value
-            if not (is_self_attr(call.func) and len(call.args) == 1 and isinstance(call.args[0], ast.Name)
-                    and call.args[0].id == payvar and not call.keywords):
+        n_ret = 0
+        for n in g.nodes:
+            if not (n.kind == 'stmt' and isinstance(n.stmt, ast.Return) and isinstance(n.stmt.value, ast.Call) and is_self_attr(n.stmt.value.func)):
+                continue
+            call = n.stmt.value
+            if not (len(call.args) == 1 and isinstance(call.args[0], ast.Name) and call.args[0].id == payvar and not call.keywords):
                 raise AnalysisError('unrecognised construct: dispatch call %s' % U(call))
-            if em[1] in out:
-                raise AnalysisError('dispatch table has two arms for %s' % em[1])
-            out[em[1]] = call.func.attr
-            nxt = node.orelse
-            if len(nxt) == 1 and isinstance(nxt[0], ast.If):
-                node = nxt[0]
-            else:
-                self.dispatch_else = nxt
-                node = None
+            n_ret += 1
+            pos = []
+            for t, lab in dominating_edges(g, n):
+                p = cmp_parts(t.stmt)
+                if not p:
+                    raise AnalysisError('unrecognised construct: dispatch test %s' % U(t.stmt))
+                l, op, r = p
+                if isinstance(r, ast.Name) and r.id == opvar:
+                    l, r = r, l
+                em = enum_member(r, 'Operation')
+                if not (isinstance(l, ast.Name) and l.id == opvar and em and op in ('Eq', 'NotEq', 'Is', 'IsNot')):
+                    raise AnalysisError('unrecognised construct: dispatch test %s' % U(t.stmt))
+                positive = (op in ('Eq', 'Is')) == (lab == 'T')
+                if positive:
+                    pos.append(em[1])
+            if len(pos) != 1:
+                raise AnalysisError('unrecognised construct: dispatch arm %s is reached under %d positive operation tests' % (U(call), len(pos)))
+            if pos[0] in out:
+                raise AnalysisError('dispatch table has two arms for %s' % pos[0])
+            out[pos[0]] = call.func.attr
+        if not out:
+            raise AnalysisError('unrecognised construct: _process_operation has no dispatch arms')
         return out
 
     def handler_op(self):
